@@ -210,6 +210,68 @@ Definition all_single (g : group) : bool :=
 
 Definition u8 (x : Z) : Z := x mod 256.
 
+(* one iteration of the `while index < num_values` loop of decode_image_data after the block / fast-path prologue:
+   literal, backward reference or colour-cache symbol.  `k` is the rest of the loop (the next iteration). *)
+Definition pixel_nonfast (k : option color_cache -> Z -> BitReader.t -> arr -> res (BitReader.t * arr))
+           (width num_values : Z) (grp : group) (cache : option color_cache) (index next_block_start : Z)
+           (br : BitReader.t) (data : arr) : res (BitReader.t * arr) :=
+  let* '(code, br) := read_symbol (g_green grp) br in
+  if code <? 256 then
+    (* literal *)
+    let green := u8 code in
+    let* '(red, br) := read_symbol (g_red grp) br in
+    let* '(blue, br) := read_symbol (g_blue grp) br in
+    let* br := (if BitReader.nbits br <? 15 then BitReader.fill br else Ok br) in
+    let* '(alpha, br) := read_symbol (g_alpha grp) br in
+    let px := (u8 red, green, u8 blue, u8 alpha) in
+    let* data := set4 data (index * 4) px in
+    let* cache := cache_insert_opt cache px in
+    k cache (index + 1) br data
+  else if code <? 256 + 24 then
+    (* backward reference *)
+    let length_symbol := code - 256 in
+    let* '(length, br) := get_copy_distance br length_symbol in
+    let* br := (if BitReader.nbits br <? 33 then BitReader.fill br else Ok br) in   (* FIX F4 *)
+    let* '(dist_symbol, br) := read_symbol (g_dist grp) br in
+    let* '(dist_code, br) := get_copy_distance br dist_symbol in
+    let* dist := plane_code_to_distance width dist_code in
+    if (index <? dist) || (num_values - index <? length) then Err EBitStreamError else
+    if dist =? 1 then
+      let* value := slice4 data ((index - dist) * 4) in
+      let* data := fill_pixels data index length value in
+      k cache (index + length) br data
+    else
+      let* data := copy_backref data index dist length num_values in
+      let* cache := (match cache with
+                     | Some c => let* c' := cache_insert_range c data index length in Ok (Some c')
+                     | None => Ok None
+                     end) in
+      k cache (index + length) br data
+  else
+    (* colour cache *)
+    match cache with
+    | None => Err EBitStreamError
+    | Some c =>
+      let* color := cache_lookup c (code - 280) in
+      let* data := write4 data (index * 4) color in
+      let* c := cache_insert c color in                                      (* FIX F2 *)
+      let index := index + 1 in
+      if index <? next_block_start then
+        let* pk := peek_symbol (g_green grp) br in
+        match pk with
+        | Some (bits, code2) =>
+          if 280 <=? code2 then
+            let* br := BitReader.consume br bits in
+            let* color2 := cache_lookup c (code2 - 280) in
+            let* data := write4 data (index * 4) color2 in
+            let* c := cache_insert c color2 in                               (* FIX F2 *)
+            k (Some c) (index + 1) br data
+          else k (Some c) index br data
+        | None => k (Some c) index br data
+        end
+      else k (Some c) index br data
+    end.
+
 (* the `while index < num_values` loop of decode_image_data; every iteration advances `index` *)
 Fixpoint pixel_loop (fuel : nat) (width num_values : Z) (h : huffman_info) (grp : group)
          (cache : option color_cache) (index next_block_start : Z) (br : BitReader.t) (data : arr) : res (BitReader.t * arr) :=
@@ -249,62 +311,8 @@ Fixpoint pixel_loop (fuel : nat) (width num_values : Z) (h : huffman_info) (grp 
     | Some (br1, data1, cache1, index1) =>
       pixel_loop fuel' width num_values h grp cache1 index1 next_block_start br1 data1
     | None =>
-      let* '(code, br) := read_symbol (g_green grp) br in
-      if code <? 256 then
-        (* literal *)
-        let green := u8 code in
-        let* '(red, br) := read_symbol (g_red grp) br in
-        let* '(blue, br) := read_symbol (g_blue grp) br in
-        let* br := (if BitReader.nbits br <? 15 then BitReader.fill br else Ok br) in
-        let* '(alpha, br) := read_symbol (g_alpha grp) br in
-        let px := (u8 red, green, u8 blue, u8 alpha) in
-        let* data := set4 data (index * 4) px in
-        let* cache := cache_insert_opt cache px in
-        pixel_loop fuel' width num_values h grp cache (index + 1) next_block_start br data
-      else if code <? 256 + 24 then
-        (* backward reference *)
-        let length_symbol := code - 256 in
-        let* '(length, br) := get_copy_distance br length_symbol in
-        let* br := (if BitReader.nbits br <? 33 then BitReader.fill br else Ok br) in   (* FIX F4 *)
-        let* '(dist_symbol, br) := read_symbol (g_dist grp) br in
-        let* '(dist_code, br) := get_copy_distance br dist_symbol in
-        let* dist := plane_code_to_distance width dist_code in
-        if (index <? dist) || (num_values - index <? length) then Err EBitStreamError else
-        if dist =? 1 then
-          let* value := slice4 data ((index - dist) * 4) in
-          let* data := fill_pixels data index length value in
-          pixel_loop fuel' width num_values h grp cache (index + length) next_block_start br data
-        else
-          let* data := copy_backref data index dist length num_values in
-          let* cache := (match cache with
-                         | Some c => let* c' := cache_insert_range c data index length in Ok (Some c')
-                         | None => Ok None
-                         end) in
-          pixel_loop fuel' width num_values h grp cache (index + length) next_block_start br data
-      else
-        (* colour cache *)
-        match cache with
-        | None => Err EBitStreamError
-        | Some c =>
-          let* color := cache_lookup c (code - 280) in
-          let* data := write4 data (index * 4) color in
-          let* c := cache_insert c color in                                      (* FIX F2 *)
-          let index := index + 1 in
-          if index <? next_block_start then
-            let* pk := peek_symbol (g_green grp) br in
-            match pk with
-            | Some (bits, code2) =>
-              if 280 <=? code2 then
-                let* br := BitReader.consume br bits in
-                let* color2 := cache_lookup c (code2 - 280) in
-                let* data := write4 data (index * 4) color2 in
-                let* c := cache_insert c color2 in                               (* FIX F2 *)
-                pixel_loop fuel' width num_values h grp (Some c) (index + 1) next_block_start br data
-              else pixel_loop fuel' width num_values h grp (Some c) index next_block_start br data
-            | None => pixel_loop fuel' width num_values h grp (Some c) index next_block_start br data
-            end
-          else pixel_loop fuel' width num_values h grp (Some c) index next_block_start br data
-        end
+      pixel_nonfast (fun cache index br data => pixel_loop fuel' width num_values h grp cache index next_block_start br data)
+                    width num_values grp cache index next_block_start br data
     end
   end.
 
